@@ -186,4 +186,19 @@ theorem tzItem_notFn {h : Heap} {v r : Val} (he : tzItem h v = .ok r) : VRel lex
     · cases he
   · cases he
 
+theorem adjustItem_fixed {c : Cfg} (hq : c.q.adjustCopied = true) (h : Heap) (x : Item) (t : Option Int) :
+    adjustItem c h x t = (deref h x).map fun d => (.dtv (adjustPure d t).1 (adjustPure d t).2, h) := by
+  unfold adjustItem
+  cases deref h x with
+  | none => rfl
+  | some d => simp [hq]
+
+theorem targetOf_rel {v1 v2 : Val} (hv : VRel lex v1 v2) : targetOf v1 = targetOf v2 := by
+  cases hv with
+  | nil => rfl
+  | cons h1 t =>
+    cases t with
+    | nil => cases h1 <;> rfl
+    | cons h2 t2 => cases h1 <;> rfl
+
 end EPV.Scope
